@@ -393,6 +393,50 @@ func init() {
 		}
 		sort.Strings(optionWrites)
 		sort.Strings(optionWriteForms)
+		// the OTHER option constructors (everything in risor_options.go that is not one of the six
+		// above): which Config fields they write
+		var otherOptionWrites []string
+		for _, d := range of.Decls {
+			fd, ok := d.(*ast.FuncDecl)
+			if !ok || fd.Body == nil || fd.Recv != nil || !strings.HasPrefix(fd.Name.Name, "With") {
+				continue
+			}
+			switch fd.Name.Name {
+			case "WithGlobal", "WithGlobals", "WithoutGlobal", "WithoutGlobals", "WithGlobalOverride", "WithoutDefaultGlobals":
+			default:
+				otherOptionWrites = append(otherOptionWrites, fd.Name.Name+":"+strings.Join(writes(fd, "cfg"), "+"))
+			}
+		}
+		sort.Strings(otherOptionWrites)
+		// the Config fields that Config.init and the methods it calls mention at all
+		initFns := map[string]bool{"init": true}
+		for _, n := range initOrder {
+			initFns[n] = true
+		}
+		initReadSet := map[string]bool{}
+		for _, d := range cf.Decls {
+			fd, ok := d.(*ast.FuncDecl)
+			if !ok || fd.Body == nil || fd.Recv == nil || !initFns[fd.Name.Name] {
+				continue
+			}
+			recv := ""
+			if len(fd.Recv.List) == 1 && len(fd.Recv.List[0].Names) == 1 {
+				recv = fd.Recv.List[0].Names[0].Name
+			}
+			ast.Inspect(fd.Body, func(n ast.Node) bool {
+				if se, ok := n.(*ast.SelectorExpr); ok {
+					if id, ok := se.X.(*ast.Ident); ok && id.Name == recv && !initFns[se.Sel.Name] {
+						initReadSet[se.Sel.Name] = true
+					}
+				}
+				return true
+			})
+		}
+		var initReads []string
+		for k := range initReadSet {
+			initReads = append(initReads, k)
+		}
+		sort.Strings(initReads)
 		// every place of the root package where a Config's map fields are set AS A WHOLE
 		mapFields := map[string]bool{"globals": true, "overrides": true, "denylist": true}
 		rhsKind := func(e ast.Expr) string {
@@ -592,6 +636,8 @@ func init() {
 		s += "/-- resolveModule's loop calls GetAttr on a variable the loop never assigns: every path component is looked up in the same (the root) module -/\ndef resolveLooksUpInRoot : Bool := " + strconv.FormatBool(resolveInRoot) + "\n\n"
 		s += "/-- the variable resolveModule's loop calls GetAttr on is its first parameter or is defined from it before the loop: the lookup starts at the root module -/\ndef resolveStartsAtRoot : Bool := " + strconv.FormatBool(resolveFromParam) + "\n\n"
 		s += "/-- per option constructor of risor_options.go: the Config fields its body writes (assignment, delete) -/\ndef optionWrites : List String := " + c11StrList(optionWrites) + "\n\n"
+		s += "/-- the other option constructors of risor_options.go (not global-related): the Config fields each one writes -/\ndef otherOptionWrites : List String := " + c11StrList(otherOptionWrites) + "\n\n"
+		s += "/-- the Config fields (and methods outside init's own call list) that Config.init and the methods it calls mention -/\ndef initReads : List String := " + c11StrList(initReads) + "\n\n"
 		s += "/-- per option constructor: HOW it writes each Config field — `f[]` a store through the field (cfg.f[k] = v, delete), `f=` an assignment of the field itself -/\ndef optionWriteForms : List String := " + c11StrList(optionWriteForms) + "\n\n"
 		s += "/-- every assignment OF a Config map field (globals, overrides, denylist) in the root package, as func:field=fresh|other (fresh = an empty map literal or make) -/\ndef configMapAssigns : List String := " + c11StrList(configMapAssigns) + "\n\n"
 		s += "/-- the VirtualMachine fields vm.WithGlobals writes -/\ndef vmWithGlobalsWrites : List String := " + c11StrList(vmWithGlobalsWrites) + "\n\n"
